@@ -34,8 +34,9 @@ def common_stage(rep, need_theorems=True):
     rcf, outf, _ = sh([sys.executable, VERIF + "/tools/frame_facts.py", HEADER, COQ + "/Model/FrameFacts.v"])
     if rep.pid == "C15": rep.oblige("frame-facts-regenerated-from-source (const member functions, no mutable/const_cast/static data, constexpr globals, local lexer instance)", rcf == 0, outf.strip()[:400])
     # full .vo build of what this property's theorems depend on (make -k: an unrelated broken file does not hide them)
-    TIE_PROPS = {"C03", "C04", "C09", "C10", "C12", "C16", "C17"}
-    targets = [f"Props/Properties_{rep.pid}.vo"] + (["Proofs/SourceFactsTie.vo"] if rep.pid in TIE_PROPS else [])
+    TIES = {"C01": ["Tab"], "C05": ["Tab"], "C11": ["Tab"], "C03": ["Pat", "Dfa"], "C17": ["Pat"], "C04": ["Ws", "Dfa"], "C12": ["Dfa"],
+            "C09": ["Ws"], "C10": ["Ws"], "C16": ["Verb"]}
+    targets = [f"Props/Properties_{rep.pid}.vo"] + [f"Proofs/SourceFactsTie{t}.vo" for t in TIES.get(rep.pid, [])]
     ok, log = coq_make(targets)
     if not ok:
         failed = re.findall(r"File \"\./([^\"]+)\", line (\d+)", log)
